@@ -6659,6 +6659,16 @@ let reply_owned inbound t c =
           | None -> OwnOk (t0, None))
   | None -> OwnNone
 
+(** val owned_publication :
+    bytes -> bytes option -> prop list -> reply_pub **)
+
+let owned_publication t c user =
+  { rp_topic = t; rp_props =
+    (with_properties
+      (match c with
+       | Some c0 -> with_correlation (PSlice []) c0
+       | None -> PSlice []) user) }
+
 (** val run_p : 'a1 parser0 -> ('a1 -> text) -> n list -> text **)
 
 let run_p p f l =
@@ -6839,16 +6849,35 @@ let show_reply buf user sel =
                                  true, true, false)), (String ((Ascii (true,
                                  false, true, true, true, true, false,
                                  false)), EmptyString)))))))
-                               (match c0 with
-                                | Some c1 ->
-                                  app
-                                    (s2t (String ((Ascii (false, false,
-                                      false, true, true, true, true, false)),
-                                      EmptyString))) (hex c1)
-                                | None ->
-                                  s2t (String ((Ascii (true, false, true,
-                                    true, false, true, false, false)),
-                                    EmptyString)))))))))))))
+                               (app
+                                 (match c0 with
+                                  | Some c1 ->
+                                    app
+                                      (s2t (String ((Ascii (false, false,
+                                        false, true, true, true, true,
+                                        false)), EmptyString))) (hex c1)
+                                  | None ->
+                                    s2t (String ((Ascii (true, false, true,
+                                      true, false, true, false, false)),
+                                      EmptyString)))
+                                 (app
+                                   (s2t (String ((Ascii (false, false, false,
+                                     false, false, true, false, false)),
+                                     (String ((Ascii (false, false, false,
+                                     false, true, true, true, false)),
+                                     (String ((Ascii (true, false, true,
+                                     true, true, true, false, false)),
+                                     EmptyString)))))))
+                                   (let r0 = owned_publication t0 c0 user in
+                                    show_sres
+                                      (enc_publish (Npos (XO (XO (XO (XO (XO
+                                        (XO (XO (XO (XO (XO (XO (XO
+                                        XH))))))))))))) { pq_topic =
+                                        r0.rp_topic; pq_pid = None;
+                                        pq_props = r0.rp_props; pq_retain =
+                                        false; pq_qos = Q0; pq_dup = false;
+                                        pq_payload = ((Npos (XO (XI (XO (XO
+                                        (XI (XI XH))))))) :: []) }))))))))))))))
      | _ ->
        s2t (String ((Ascii (false, true, true, true, false, false, true,
          false)), (String ((Ascii (true, true, true, true, false, false,
